@@ -19,12 +19,23 @@ FZ_PFX = dict(kind='fuzz', harness='replay/fz/rle_levels_prefixed.c', sources=RL
 E = dict(overlays=['contracts/rle.ovl'], harness='harness/C11/rle.c', prop='C11',
          extra_sources=['stubs/mem_stubs.c', 'stubs/rle_stubs.c'], trusted=STUB_TRUST + [
              'RLE encoder jobs: sequences of at most 2^31-1 values; bit width 0..32 (encoder side)'])
-ENC_HELPERS = ['flush_bitpack', 'flush_rle']
+ENC_HELPERS = ['flush_bitpack', 'flush_rle', 'complete_bitpack_group_from_run']
+PUT_FLUSH = ['carquet_rle_encoder_init', 'carquet_rle_encoder_put', 'carquet_rle_encoder_flush']
+FZ_RT = dict(kind='fuzz', harness='replay/fz/rle_roundtrip.c', sources=RLE_SRCS, max_len=48, secs=20)
+ENC_NOTE = ('FINDING (genuine, native demo /tmp/rle/demo_roundtrip.c, fix /tmp/rle/rle_encoder_fix.diff): a run of >= 8 that ends '
+            'while 0 < bitpack_count < 8 makes flush_bitpack pad the literal group in mid-stream and a run header '
+            'follows the padding (requires G_pad == 0 of flush_rle fails); stays wip until /repo is fixed')
+
+S12 = dict(overlays=['contracts/rle.ovl'], harness='harness/C12/rle.c', prop='C12', loop_contracts=False,
+           defines=['RLE_STUB_RECORD=1'], extra_sources=['stubs/mem_stubs.c', 'stubs/rle_stubs.c'],
+           trusted=STUB_TRUST + ['specs/rle_spec.h is a faithful reading of Encodings.md (RLE = 3)',
+                                 'stubs/rle_stubs.c -DRLE_STUB_RECORD: carquet_buffer_append as an exact recording model'])
+FZ_SPEC = dict(kind='fuzz', harness='replay/fz/rle_spec_decode.c', sources=RLE_SRCS, max_len=48, secs=20)
 
 JOBS = [
     dict(name='c08_rle_read_varint', replayer=FZ_DEC, entry='h_rle_read_varint', enforce='read_varint', min_loop_obligations=1, **D),
     dict(name='c08_rle_start_new_run', replayer=FZ_DEC, entry='h_rle_start_new_run', enforce='start_new_run',
-         replace=['start_new_run__rec', 'read_varint'], min_loop_obligations=1, soft=SHIFT_SOFT, **D),
+         replace=['read_varint'], min_loop_obligations=2, soft=SHIFT_SOFT, **D),
     dict(name='c08_rle_fill_bitpack_buffer', replayer=FZ_DEC, entry='h_rle_fill_bitpack', enforce='fill_bitpack_buffer',
          loop_contracts=False, **D),
     dict(name='c08_rle_decoder_init', entry='h_rle_init', enforce='carquet_rle_decoder_init', loop_contracts=False,
@@ -36,7 +47,7 @@ JOBS = [
     dict(name='c08_rle_decoder_get_batch', replayer=FZ_DEC, entry='h_rle_get_batch', enforce='carquet_rle_decoder_get_batch',
          replace=DEC_HELPERS, min_loop_obligations=4, est_s=60, **D),
     dict(name='c08_rle_decoder_skip', replayer=FZ_DEC, entry='h_rle_skip', enforce='carquet_rle_decoder_skip',
-         replace=DEC_HELPERS, min_loop_obligations=2, est_s=60, **D),
+         replace=DEC_HELPERS, min_loop_obligations=2, est_s=110, **D),
     dict(name='c08_rle_decode_all', replayer=FZ_DEC, entry='h_rle_decode_all', enforce='carquet_rle_decode_all',
          replace=['carquet_rle_decoder_init', 'carquet_rle_decoder_get_batch'], loop_contracts=False, **D),
     dict(name='c08_rle_decode_levels', replayer=FZ_DEC, entry='h_rle_decode_levels', enforce='carquet_rle_decode_levels',
@@ -47,17 +58,39 @@ JOBS = [
               'called with a window beyond the input; stays wip until /repo is fixed', **W, **D),
     ] + [
     # ---- C11: encoder count preservation (ghost state) --------------------------------------------
-    dict(name='c11_rle_write_varint', entry='h_c11_write_varint', enforce='write_varint', min_loop_obligations=1, **W, **E),
+    dict(name='c11_rle_enc_append', entry='h_c11_enc_append', enforce='enc_append', loop_contracts=False, **W, **E),
+    dict(name='c11_rle_complete_group', entry='h_c11_complete_group', enforce='complete_bitpack_group_from_run',
+         replace=['flush_bitpack'], min_loop_obligations=1, **W, **E),
+    dict(name='c11_rle_encoder_put_repeat', entry='h_c11_put_repeat', enforce='carquet_rle_encoder_put_repeat',
+         replace=['carquet_rle_encoder_put'], min_loop_obligations=1, **W, **E),
+    dict(name='c11_rle_encode_all', entry='h_c11_encode_all', enforce='carquet_rle_encode_all', replace=PUT_FLUSH,
+         min_loop_obligations=1, replayer=FZ_RT, **W, **E),
+    dict(name='c11_rle_encode_levels', entry='h_c11_encode_levels', enforce='carquet_rle_encode_levels', replace=PUT_FLUSH,
+         min_loop_obligations=1, replayer=FZ_RT, **W, **E),
+    dict(name='c11_rle_write_varint', entry='h_c11_write_varint', enforce='write_varint', min_loop_obligations=1, **E),
     dict(name='c11_rle_flush_rle', entry='h_c11_flush_rle', enforce='flush_rle', replace=['write_varint'],
-         min_loop_obligations=1, **W, **E),
+         min_loop_obligations=1, **E),
     dict(name='c11_rle_flush_bitpack', entry='h_c11_flush_bitpack', enforce='flush_bitpack', replace=['write_varint'],
-         min_loop_obligations=2, **W, **E),
+         min_loop_obligations=2, **E),
     dict(name='c11_rle_encoder_init', entry='h_c11_encoder_init', enforce='carquet_rle_encoder_init', loop_contracts=False,
-         defines=['CQV_MEMSET_EXACT=128'], unwindset=['memset.0:129'], **W, **E),
-    dict(name='c11_rle_encoder_put', entry='h_c11_put', enforce='carquet_rle_encoder_put', replace=ENC_HELPERS,
+         defines=['CQV_MEMSET_EXACT=128'], unwindset=['memset.0:129'], **E),
+    dict(name='c11_rle_encoder_put', replayer=FZ_RT, note=ENC_NOTE, entry='h_c11_put', enforce='carquet_rle_encoder_put', replace=ENC_HELPERS,
          min_loop_obligations=1, **W, **E),
-    dict(name='c11_rle_encoder_flush', entry='h_c11_flush', enforce='carquet_rle_encoder_flush', replace=ENC_HELPERS,
+    dict(name='c11_rle_encoder_flush', replayer=FZ_RT, note=ENC_NOTE, entry='h_c11_flush', enforce='carquet_rle_encoder_flush', replace=ENC_HELPERS,
          min_loop_obligations=1, **W, **E),
     dict(name='c11_rle_encoder_flush_append_failures', entry='h_c11_flush', enforce='carquet_rle_encoder_flush',
-         replace=ENC_HELPERS, min_loop_obligations=1, defines=['RLE_CHECK_APPEND=1'], **W, **E),
+         replace=ENC_HELPERS, min_loop_obligations=1, defines=['RLE_CHECK_APPEND=1'],
+         note='FINDING: results of carquet_buffer_append are ignored in write_varint/flush_rle/flush_bitpack: flush returns '
+              'CARQUET_OK although appends failed (native demo /tmp/rle/demo_append.c); also fails for ENC_NOTE', **W, **E),
+    ] + [
+    # ---- C12: run header forms vs. specs/rle_spec.h (harness is the contract, loops unwound completely) ----
+    dict(name='c12_rle_read_varint_spec', entry='h_c12_read_varint', functions=['read_varint'], unwind=7, **S12),
+    dict(name='c12_rle_write_varint_spec', entry='h_c12_write_varint', functions=['write_varint'], unwind=33, **S12),
+    dict(name='c12_rle_flush_rle_form', entry='h_c12_flush_rle_form', functions=['flush_rle', 'write_varint'], unwind=33, **S12),
+    dict(name='c12_rle_flush_bitpack_form', entry='h_c12_flush_bitpack_form', functions=['flush_bitpack', 'write_varint'],
+         unwind=33, est_s=40, **S12),
+    dict(name='c12_rle_start_new_run_forms', entry='h_c12_start_new_run_forms', functions=['start_new_run', 'read_varint'],
+         unwind=18, replayer=FZ_SPEC,
+         note='FINDING: a zero-length RLE run does not consume its repeated-value bytes (native demo /tmp/rle/demo_zero_run.c)',
+         **W, **S12),
 ]
